@@ -23,7 +23,9 @@ import (
 	"github.com/ohler55/slip"
 	_ "github.com/ohler55/slip/pkg"
 	"github.com/ohler55/slip/pkg/swank"
+	"github.com/ohler55/slip/simrt"
 	"verif/sim/harness"
+	"verif/sim/simkit/sched"
 	"verif/sim/simkit/tape"
 )
 
@@ -65,6 +67,22 @@ type Case struct {
 	// SkipFronts lists front ends left out (known findings).
 	SkipFronts []string `json:"skip_fronts,omitempty"`
 	Seed       uint64   `json:"plan_seed"`
+	// Conc: the text is read by two routines at the same time, each with its
+	// own reader variables, under a seeded schedule (seeded change C02-n1: a
+	// process-wide cache of resolved tokens)
+	Conc *Conc `json:"conc,omitempty"`
+}
+
+// Conc is the second reader configuration and the schedule of a concurrent case.
+type Conc struct {
+	ReadBase  int      `json:"read_base"`
+	FloatFmt  string   `json:"float_format"`
+	Policy    string   `json:"policy"`
+	SwitchPct int      `json:"switch_pct"`
+	YieldPct  int      `json:"yield_pct"`
+	TapeSeed  uint64   `json:"tape_seed"`
+	Tape      []uint32 `json:"tape,omitempty"`
+	Replay    bool     `json:"replay,omitempty"`
 }
 
 type engine struct{}
@@ -361,8 +379,99 @@ func (e *engine) Generate(seed uint64, idx int, tier string, avoid []harness.Fin
 			c.SkipFronts = append(c.SkipFronts, strings.TrimPrefix(f.Trigger, "front:"))
 		}
 	}
+	if r.Pct(6) {
+		// (drawn last, so that every other case is what it was before)
+		c.Conc = &Conc{ReadBase: []int{10, 16, 8, 36, 2}[r.Intn(5)], FloatFmt: []string{"double-float", "single-float", "long-float"}[r.Intn(3)],
+			Policy:    []string{sched.PolicyRandom, sched.PolicyPCT, sched.PolicyRR}[r.Intn(3)],
+			SwitchPct: []int{20, 50, 90}[r.Intn(3)], YieldPct: []int{5, 25, 100}[r.Intn(3)], TapeSeed: r.Uint64()}
+		if c.Conc.ReadBase == c.ReadBase {
+			c.Conc.ReadBase = map[int]int{10: 16, 16: 10, 8: 10, 36: 10, 2: 10}[c.ReadBase]
+		}
+	}
 	b, _ := json.Marshal(c)
 	return b
+}
+
+// concurrent runs a case in which two routines read the same text at the
+// same time, each in a scope of its own with its own *read-base* and
+// *read-default-float-format*: whatever the schedule, each routine must read
+// what its configuration reads alone - from the string and from a stream in
+// pieces.
+func (e *engine) concurrent(c *Case) (vd harness.Verdict) {
+	vd.Evals = 1
+	vd.Faults = map[string]int{}
+	vd.Probes = map[string]int{"concurrent_cases": 1}
+	cfgs := []*Case{c, {}}
+	*cfgs[1] = *c
+	cfgs[1].ReadBase, cfgs[1].FloatFmt = c.Conc.ReadBase, c.Conc.FloatFmt
+	plan := Plan{Sizes: []int{3}, Cycle: true, ErrAfter: -1}
+	var refs [2][2]outcome
+	for i, cc := range cfgs {
+		refs[i][0] = reference(cc, "ReadStream")
+		refs[i][1], _ = runFront(cc, "ReadStream", plan)
+		if refs[i][0].kind == "go-panic" {
+			vd.Probes["reference_host_fault"]++
+			return
+		}
+	}
+	var tp *tape.Tape
+	if c.Conc.Replay {
+		tp = tape.Replay(c.Conc.Tape)
+	} else {
+		tp = tape.New(c.Conc.TapeSeed)
+	}
+	s := sched.New(sched.Config{Policy: c.Conc.Policy, SwitchPct: c.Conc.SwitchPct, YieldPct: c.Conc.YieldPct, PCTDepth: 2,
+		PCTHorizon: 4000, Salt: c.Seed, Budget: 400000 + 4000*len(c.Text)}, tp)
+	var bad [2]string
+	task := func(i int) {
+		for round := 0; round < 3 && bad[i] == ""; round++ {
+			got := [2]outcome{reference(cfgs[i], "ReadStream")}
+			got[1], _ = runFront(cfgs[i], "ReadStream", plan)
+			for k, how := range []string{"from the string", "from a stream in pieces of 3 bytes"} {
+				if got[k].kind != refs[i][k].kind || got[k].class != refs[i][k].class || got[k].depth != refs[i][k].depth || !sameObjects(refs[i][k], got[k]) {
+					bad[i] = fmt.Sprintf("read %s with *read-base* %d and %s, round %d, gives %v; read alone it gives %v", how, cfgs[i].ReadBase, cfgs[i].FloatFmt, round, got[k], refs[i][k])
+					break
+				}
+			}
+		}
+	}
+	res := s.Run(func() {
+		simrt.Go(func() { task(0) })
+		simrt.Go(func() { task(1) })
+	})
+	vd.Steps = s.Stats.Steps
+	vd.Faults["context_switches"] = s.Stats.Switches
+	pin := func() {
+		p := *c
+		cc := *c.Conc
+		cc.Tape = append([]uint32{}, tp.Rec...)
+		cc.Replay = true
+		p.Conc = &cc
+		vd.Pinned, _ = json.Marshal(p)
+	}
+	if res.Outcome != sched.Completed {
+		pin()
+		vd.V = viol("concurrent-no-progress", "two routines reading %q at the same time: the run ended with %v; stuck: %v", c.Show, res.Outcome, res.Stuck)
+		return
+	}
+	for _, t := range res.Panics {
+		pin()
+		vd.V = viol("concurrent-read", "two routines reading %q at the same time: a routine died with %v", c.Show, t.PanicVal)
+		return
+	}
+	for i := range bad {
+		if bad[i] != "" {
+			pin()
+			vd.V = viol("concurrent-read", "two routines read the text %q at the same time, each with reader variables of its own: routine %d %s", c.Show, i, bad[i])
+			return
+		}
+	}
+	if m, races := sched.UnknownRaces(s.MapRaces, nil); m != "" {
+		pin()
+		vd.V = viol("map-race:"+m, "two routines reading at the same time access the shared Go map or slice %s with nothing ordering them: %v", m, races)
+		return
+	}
+	return
 }
 
 func avoidTrig(avoid []harness.Finding, t string) bool {
@@ -975,6 +1084,9 @@ func (e *engine) Execute(raw json.RawMessage) (vd harness.Verdict) {
 	var c Case
 	if err := json.Unmarshal(raw, &c); err != nil {
 		panic(err)
+	}
+	if c.Conc != nil {
+		return e.concurrent(&c)
 	}
 	vd.Faults = map[string]int{}
 	vd.Probes = map[string]int{}
